@@ -130,22 +130,22 @@ type Kern struct {
 	Calls []Call
 	Cfg   Config
 	// statistics / oracles
-	Opened, Closed   int
-	DoubleClose      int
-	KeventOnClosed   int
-	Faults           Counter
-	MaxBatch         int
-	Retrievals       int
-	Permuted         int
-	OpenByPath       []string
-	EINTRPending     int
+	Opened, Closed int
+	DoubleClose    int
+	KeventOnClosed int
+	Faults         Counter
+	MaxBatch       int
+	Retrievals     int
+	Permuted       int
+	OpenByPath     []string
+	EINTRPending   int
 }
 
 // Config are the per-run knobs.
 type Config struct {
-	BatchMode int // 0: any k in 1..n (decision 0 = all that fit); 1: one per retrieval
-	Permute   bool
-	FaultOpen int // 0 off; else 1-in-N opens fail (EINTR is retried by the code; EACCES / EMFILE are not)
+	BatchMode   int // 0: any k in 1..n (decision 0 = all that fit); 1: one per retrieval
+	Permute     bool
+	FaultOpen   int  // 0 off; else 1-in-N opens fail (EINTR is retried by the code; EACCES / EMFILE are not)
 	EmulatePerm bool // emulate non-root permission checks from the mode bits
 }
 
